@@ -51,7 +51,7 @@ def base_population(item, params):
     return popgen.relabel(df, pm, hm).iloc[rng.permutation(len(df))].reset_index(drop=True), rng
 
 
-def enumerate_faults(df, roots):
+def enumerate_faults(df, roots, computed=None, functions=None):
     """All single faults: list of (class, position label, mutation function)."""
     from _gettsim.config import TYPES_INPUT_VARIABLES
 
@@ -115,6 +115,21 @@ def enumerate_faults(df, roots):
                 F.append((f"non_boolean_in_bool_column_float", f"{c}:row{i}", setval(c, i, 0.5, astype=float)))
         if i:  # one object-typed variant per column
             F.append(("object_column", c, (lambda cc: lambda d: d.assign(**{cc: d[cc].astype(object).where(d.index != 0, "x")}))(c)))
+    # a data column that REPLACES a rule is held to the rule's declared type: its own computed values with one malformed cell
+    if computed is not None:
+        rules = [c for c in computed.columns if c in functions and c not in df.columns
+                 and getattr(functions[c], "__annotations__", {}).get("return") in (bool, int)]
+        for c in rules[:: max(1, len(rules) // 24)]:
+            rt = functions[c].__annotations__["return"]
+            vals = computed[c].to_numpy()
+            for i in (0, n // 2, n - 1):
+                if rt is bool:
+                    F.append(("overriding_column_non_boolean", f"{c}:row{i}",
+                              (lambda cc, vv, ii: lambda d: d.assign(**{cc: np.where(np.arange(len(d)) == ii, 2, vv.astype(np.int64))}))(c, vals, i)))
+                else:
+                    F.append(("overriding_column_fractional", f"{c}:row{i}",
+                              (lambda cc, vv, ii: lambda d: d.assign(**{cc: np.where(np.arange(len(d)) == ii, vv.astype(float) + 0.5, vv.astype(float))}))(c, vals, i)))
+            F.append(("overriding_column_object", c, (lambda cc, vv: lambda d: d.assign(**{cc: pd.Series(vv, index=d.index).astype(object).where(d.index != 0, "x")}))(c, vals)))
     return F
 
 
@@ -144,11 +159,12 @@ def _faults(item):
     except Exception as e:  # noqa: BLE001
         res["violations"].append(dict(key="base_rejected", what=f"the valid base population is rejected: {type(e).__name__} {str(e)[:200]}"))
         return res
-    F = enumerate_faults(df, roots)
+    computed = env.simulate(df, params, functions, nodes)
+    F = enumerate_faults(df, roots, computed, functions)
     mine = [f for i, f in enumerate(F) if i % item["chunks"] == item["chunk"]]
     if item["tier"] == "quick":
         # every class and column, a deterministic third of the row positions
-        mine = [f for j, f in enumerate(mine) if (not f[1].split(":")[-1].startswith("row")) or j % 3 == 0 or "pointer" in f[0] or "p_id" in f[0] or f[0].startswith("hh_level_varies:") or "spouses" in f[0]]
+        mine = [f for j, f in enumerate(mine) if (not f[1].split(":")[-1].startswith("row")) or j % 3 == 0 or "pointer" in f[0] or "p_id" in f[0] or f[0].startswith("hh_level_varies:") or "spouses" in f[0] or f[0].startswith("overriding")]
     for cls, pos, mut in mine:
         try:
             data = mut(df)
